@@ -14,7 +14,7 @@ from __future__ import annotations
 import ast
 
 from .. import nodewalk, paths
-from ..model import AnalysisError, Project
+from ..model import AnalysisError, Project, self_attr, walk_no_nested
 from ..report import Result
 from .common import site, src, status_str
 
@@ -95,7 +95,78 @@ def run(p: Project, tier: str) -> Result:
             pnames = [a.arg for a in fi.node.args.args if a.arg != 'self']
             mine = [('param', pnames[i]) for i in sorted(own_pos.get((w.ci.name, root), set())) if i < len(pnames)]
             check_root(r, w, root, fi, ps, mine, own_pos)
+    check_container_freshness(p, r)
     return r
+
+
+MUTATING = {'append', 'pop', 'remove', 'insert', 'extend', 'clear', 'sort', 'reverse', 'update', 'add', 'discard', 'setdefault', 'popitem'}
+
+
+def is_mutable_ctor(n):
+    if isinstance(n, (ast.List, ast.Dict, ast.Set, ast.ListComp, ast.DictComp, ast.SetComp)):
+        return True
+    return isinstance(n, ast.Call) and isinstance(n.func, ast.Name) and n.func.id in ('list', 'dict', 'set', 'deque', 'defaultdict') and not n.args
+
+
+def mutated_attrs(p):
+    """attribute names that are mutated in place somewhere in the package (on any receiver)"""
+    out = {}
+    for fi in p.all_functions():
+        for n in ast.walk(fi.node):
+            if isinstance(n, ast.Call) and isinstance(n.func, ast.Attribute) and n.func.attr in MUTATING and isinstance(n.func.value, ast.Attribute):
+                out.setdefault(n.func.value.attr, (fi, n.lineno))
+            if isinstance(n, (ast.Assign, ast.AugAssign, ast.Delete)):
+                for t in (n.targets if isinstance(n, (ast.Assign, ast.Delete)) else [n.target]):
+                    if isinstance(t, ast.Subscript) and isinstance(t.value, ast.Attribute):
+                        out.setdefault(t.value.attr, (fi, n.lineno))
+    return out
+
+
+def check_container_freshness(p, r):
+    """R5: a container that is mutated in place must be created per instance: not a mutable default argument, not a class-level literal.
+    (An item packed into one pallet / held by one node must not appear in another one through shared storage.)"""
+    r.rule('C03.R5', 'containers that are mutated in place are per-instance (no mutable default argument or class-level literal behind them)', 8)
+    mut = mutated_attrs(p)
+    for ci in sorted(p.classes.values(), key=lambda c: (c.module, c.name)):
+        init = ci.methods.get('__init__')
+        # class-level mutable literals that are mutated through instances and never re-bound per instance
+        inst_assigned = set(p.self_attr_sites(ci.key))
+        for name, val in ci.class_attrs.items():
+            if is_mutable_ctor(val) and name in mut and name not in inst_assigned:
+                r.fail('C03.R5', f'{ci.label}::class-attribute({name})', f'`{name}` is a class-level mutable object that is mutated in place '
+                                                                          f'({mut[name][0].key}): every instance shares it', src(ci.module), ci.node.lineno)
+        if init is None:
+            continue
+        args = init.node.args
+        pos = args.args
+        defaults = [None] * (len(pos) - len(args.defaults)) + list(args.defaults)
+        pairs = list(zip(pos, defaults)) + list(zip(args.kwonlyargs, args.kw_defaults))
+        n_checked = 0
+        for a, d in pairs:
+            if d is None or not is_mutable_ctor(d):
+                continue
+            # where does the parameter go?
+            for n in walk_no_nested(init.node):
+                if isinstance(n, ast.Assign) and isinstance(n.value, ast.Name) and n.value.id == a.arg:
+                    for t in n.targets:
+                        at = self_attr(t)
+                        if at is None:
+                            continue
+                        n_checked += 1
+                        key = f'{init.key}::default({a.arg})→self.{at}'
+                        if at in mut:
+                            mf, ml = mut[at]
+                            r.fail('C03.R5', key, f'`self.{at}` aliases the mutable default argument `{a.arg}={ast.unparse(d)}`, and `{at}` is mutated in place '
+                                                  f'(e.g. {mf.key} line {ml}): all instances created without that argument share one container, so an item '
+                                                  f'put into one of them appears in all of them', src(ci.module), n.lineno)
+                        else:
+                            r.ok('C03.R5', key, f'mutable default stored in self.{at}, which is never mutated in place (read-only configuration)',
+                                 src(ci.module), n.lineno)
+        # containers created in __init__ by a literal: fresh per instance
+        for at, sites in p.self_attr_sites(ci.key).items():
+            for fi_, v, line in sites:
+                if fi_.name == '__init__' and fi_.cls == ci.name and v is not None and is_mutable_ctor(v) and at in mut:
+                    r.ok('C03.R5', f'{init.key}::fresh(self.{at})', 'created by a literal in __init__', src(ci.module), line)
 
 
 def check_root(r, w, root, fi, ps, mine, own_pos):
